@@ -435,7 +435,9 @@ func newAddressScriptHash32FromHash(scriptHash []byte, net *chaincfg.Params) (*A
 // EncodeAddress returns the string encoding of a pay-to-script-hash
 // address.  Part of the Address interface.
 func (a *AddressScriptHash32) EncodeAddress() string {
-	return encodeCashAddress(a.hash[:], a.prefix, AddrTypePayToScriptHash) // TODO TODO
+	// A P2SH32 address is the script hash type with the 256 bit size code,
+	// carrying the whole 32 byte hash.
+	return checkEncodeCashAddress(a.hash[:], a.prefix, AddrTypePayToScriptHash)
 }
 
 // ScriptAddress returns the bytes to be included in a txout script to pay
@@ -758,6 +760,13 @@ func checkDecodeCashAddress(input string) (result []byte, prefix string, t Addre
 	data, err = convertBits(data, 5, 8, false)
 	if err != nil {
 		return data, prefix, AddrTypePayToPubKeyHash, err
+	}
+	if len(data) == 1+sha256.Size {
+		// The only 32 byte kind is script hash with the 256 bit size code.
+		if data[0] != 0x0b {
+			return data, prefix, AddrTypePayToPubKeyHash, ErrUnknownAddressType
+		}
+		return data[1 : 1+sha256.Size], prefix, AddrTypePayToScriptHash32, nil
 	}
 	if len(data) != 21 {
 		return data, prefix, AddrTypePayToPubKeyHash, errors.New("incorrect data length")
